@@ -17,8 +17,23 @@ import (
 )
 
 type limbRef struct {
-	who int // 0 = receiver, 1 = argument
-	idx int64
+	who  int       // 0 = receiver, 1 = argument
+	idx  int64     // constant index, or -1
+	idxV ssa.Value // the index value (a loop variable when not constant)
+}
+
+func (l limbRef) sameIndex(o limbRef) bool {
+	if l.idx >= 0 || o.idx >= 0 {
+		return l.idx == o.idx
+	}
+	return core.StripConv(l.idxV) == core.StripConv(o.idxV)
+}
+
+func (l limbRef) String() string {
+	if l.idx >= 0 {
+		return fmt.Sprint(l.idx)
+	}
+	return l.idxV.Name()
 }
 
 // limbCells: which values denote the two operands' limb arrays (the pointer parameters, and local copies of them).
@@ -61,11 +76,10 @@ func limbOf(v ssa.Value, cells map[ssa.Value]int) (limbRef, bool) {
 	if !ok {
 		return limbRef{}, false
 	}
-	k, ok := core.ConstInt(ia.Index)
-	if !ok {
-		return limbRef{}, false
+	if k, ok := core.ConstInt(ia.Index); ok {
+		return limbRef{who, k, ia.Index}, true
 	}
-	return limbRef{who, k}, true
+	return limbRef{who, -1, ia.Index}, true
 }
 
 // pureDecision: f consists of comparisons, branches and returns only.
@@ -85,7 +99,7 @@ func pureDecision(f *ssa.Function) bool {
 }
 
 // orderEval runs fn on concrete representatives: leaf supplies values for chosen SSA values.
-func orderEval(fn *ssa.Function, leaf func(ssa.Value) (int64, bool), depth int) (int64, string) {
+func orderEval(fn *ssa.Function, leaf func(v ssa.Value, eval func(ssa.Value) (int64, bool)) (int64, bool), depth int) (int64, string) {
 	if depth > 3 {
 		return 0, "helper nesting too deep"
 	}
@@ -95,10 +109,13 @@ func orderEval(fn *ssa.Function, leaf func(ssa.Value) (int64, bool), depth int) 
 		if d > 40 {
 			return 0, "expression too deep"
 		}
-		if k, ok := leaf(v); ok {
+		if k, ok := phiVals[v]; ok {
 			return k, ""
 		}
-		if k, ok := phiVals[v]; ok {
+		if k, ok := leaf(v, func(x ssa.Value) (int64, bool) {
+			r, why := val(x, d+1)
+			return r, why == ""
+		}); ok {
 			return k, ""
 		}
 		if _, isC := v.(*ssa.Const); isC {
@@ -156,8 +173,14 @@ func orderEval(fn *ssa.Function, leaf func(ssa.Value) (int64, bool), depth int) 
 				return bi(a > b)
 			case token.GEQ:
 				return bi(a >= b)
+			case token.ADD:
+				return a + b, ""
+			case token.SUB:
+				return a - b, ""
+			case token.MUL:
+				return a * b, ""
 			}
-			return 0, "arithmetic on limbs (" + x.Op.String() + "): not a pure comparison"
+			return 0, "operation " + x.Op.String() + " outside the ordering abstraction"
 		case *ssa.Call:
 			callee := core.Callee(x.Common())
 			if callee == nil || !core.InModule(callee) || !pureDecision(callee) {
@@ -171,17 +194,12 @@ func orderEval(fn *ssa.Function, leaf func(ssa.Value) (int64, bool), depth int) 
 				}
 				args[p] = a
 			}
-			return orderEval(callee, func(v ssa.Value) (int64, bool) { k, ok := args[v]; return k, ok }, depth+1)
+			return orderEval(callee, func(v ssa.Value, _ func(ssa.Value) (int64, bool)) (int64, bool) { k, ok := args[v]; return k, ok }, depth+1)
 		}
 		return 0, "value outside the ordering abstraction: " + v.String()
 	}
 	b := fn.Blocks[0]
-	seen := map[*ssa.BasicBlock]bool{}
-	for steps := 0; steps < 256; steps++ {
-		if seen[b] {
-			return 0, "loop"
-		}
-		seen[b] = true
+	for steps := 0; steps < 512; steps++ {
 		var next *ssa.BasicBlock
 		switch x := b.Instrs[len(b.Instrs)-1].(type) {
 		case *ssa.Return:
@@ -289,16 +307,16 @@ func RuleO1(c *Ctx) {
 					lo, okO := limbOf(other, cells)
 					switch {
 					case !okO:
-						und = append(und, fmt.Sprintf("limb %d is combined with %s at %s", l.idx, other.String(), c.P.Pos(u.Pos())))
+						und = append(und, fmt.Sprintf("limb %s is combined with %s at %s", l, other.String(), c.P.Pos(u.Pos())))
 					case lo.who == l.who:
 						bad = append(bad, fmt.Sprintf("compares two limbs of the same operand at %s", c.P.Pos(u.Pos())))
-					case lo.idx != l.idx:
-						bad = append(bad, fmt.Sprintf("compares limb %d of one operand with limb %d of the other at %s", l.idx, lo.idx, c.P.Pos(u.Pos())))
+					case !lo.sameIndex(l):
+						bad = append(bad, fmt.Sprintf("compares limb %s of one operand with limb %s of the other at %s", l, lo, c.P.Pos(u.Pos())))
 					}
 				case *ssa.Call:
 					callee := core.Callee(u.Common())
 					if callee == nil || !core.InModule(callee) || !pureDecision(callee) || len(u.Call.Args) != 2 {
-						und = append(und, fmt.Sprintf("limb %d is passed to %s at %s", l.idx, core.CalleeName(u.Common()), c.P.Pos(u.Pos())))
+						und = append(und, fmt.Sprintf("limb %s is passed to %s at %s", l, core.CalleeName(u.Common()), c.P.Pos(u.Pos())))
 						continue
 					}
 					family = append(family, callee)
@@ -306,12 +324,12 @@ func RuleO1(c *Ctx) {
 					a1, ok1 := limbOf(u.Call.Args[1], cells)
 					if !ok0 || !ok1 || a0.who == a1.who {
 						und = append(und, fmt.Sprintf("helper %s is not given one limb of each operand at %s", callee.Name(), c.P.Pos(u.Pos())))
-					} else if a0.idx != a1.idx {
-						bad = append(bad, fmt.Sprintf("helper %s compares limb %d of one operand with limb %d of the other at %s", callee.Name(), a0.idx, a1.idx, c.P.Pos(u.Pos())))
+					} else if !a0.sameIndex(a1) {
+						bad = append(bad, fmt.Sprintf("helper %s compares limb %s of one operand with limb %s of the other at %s", callee.Name(), a0, a1, c.P.Pos(u.Pos())))
 					}
 				case *ssa.DebugRef:
 				default:
-					und = append(und, fmt.Sprintf("limb %d is used outside a comparison at %s", l.idx, c.P.Pos(r.Pos())))
+					und = append(und, fmt.Sprintf("limb %s is used outside a comparison at %s", l, c.P.Pos(r.Pos())))
 				}
 			}
 		})
@@ -377,13 +395,24 @@ func RuleO1(c *Ctx) {
 				rel[i] = k%3 - 1
 				k /= 3
 			}
-			leaf := func(v ssa.Value) (int64, bool) {
+			leaf := func(v ssa.Value, eval func(ssa.Value) (int64, bool)) (int64, bool) {
 				l, ok := limbOf(v, cells)
-				if !ok || l.idx < 0 || l.idx > 3 {
+				if !ok {
+					return 0, false
+				}
+				idx := l.idx
+				if idx < 0 {
+					k, okI := eval(l.idxV)
+					if !okI {
+						return 0, false
+					}
+					idx = k
+				}
+				if idx < 0 || idx > 3 {
 					return 0, false
 				}
 				if l.who == 0 {
-					return int64(5 + rel[l.idx]), true
+					return int64(5 + rel[idx]), true
 				}
 				return 5, true
 			}
